@@ -1,7 +1,7 @@
 (* C05 -- property theorems only.  Proofs live in C05/Proofs*.v. *)
 From Coq Require Import NArith List Bool.
 From DV Require Import Base.Outcome Base.Bytes Base.Names Base.PName
-  C05.Schema C05.Gen C05.Model C05.ProofsA C05.ProofsB C05.ProofsC C05.ProofsD C05.Proofs.
+  C05.Schema C05.Gen C05.Model C05.OptModel C05.ProofsA C05.ProofsB C05.ProofsC C05.ProofsD C05.ProofsE C05.Proofs.
 Import ListNotations.
 Local Open Scope N_scope.
 
@@ -120,3 +120,32 @@ Theorem C05_zone_unknown_eq_spec : forall t1 b1 t2 b2,
   zone_eq_unknown t1 b1 t2 b2 = true <-> t1 = t2 /\ b1 = b2.
 Proof. exact zone_unknown_eq_spec. Qed.
 Print Assumptions C05_zone_unknown_eq_spec.
+
+(* EDNS option framing: the framed length is the sum of 4 + data length ... *)
+Theorem C05_opt_frame_len : forall l, len (opt_frame l) = framed_len l.
+Proof. exact opt_frame_len. Qed.
+Print Assumptions C05_opt_frame_len.
+
+(* ... and a framed option list iterates as itself *)
+Theorem C05_opt_parse_frame : forall l,
+  Forall wf_option l -> framed_len l <= 65535 -> opt_parse (opt_frame l) = Ok l.
+Proof. exact opt_parse_frame. Qed.
+Print Assumptions C05_opt_parse_frame.
+
+Theorem C05_opt_push_all_frame : forall l cur r,
+  opt_push_all cur l = Some r -> r = cur ++ opt_frame l.
+Proof. exact opt_push_all_frame. Qed.
+Print Assumptions C05_opt_push_all_frame.
+
+(* Opt::push keeps OPT data within 65535 octets iff its check counts the
+   option header (T1 flag opt_push_counts_header) *)
+Theorem C05_opt_push_bounded : forall cur o r,
+  Gen.opt_push_counts_header = true -> opt_push cur o = Some r -> len r <= 65535.
+Proof. exact opt_push_bounded. Qed.
+Print Assumptions C05_opt_push_bounded.
+
+Theorem C05_opt_push_long_refuted :
+  Gen.opt_push_counts_header = false ->
+  exists o r, opt_push [] o = Some r /\ 65535 < len r.
+Proof. exact opt_push_long_refuted. Qed.
+Print Assumptions C05_opt_push_long_refuted.
